@@ -273,31 +273,91 @@ theorem updateVars_effect (C : ECfg α β) (base : List Clause) (slot : Nat) (x 
       · simp [hks, hi]
       · simp [hks, (hrest k hks hk kx ky kz).2]
 
-/-- **feature walk frame.** The feature walk over a (specialised) tape does not depend on the
-    stale scratch it is started with — `count_simd` aside, which both runs enter with the value
-    `setCount(1)` left — PROVIDED (H1) every binary array-wise clause stays below `count_simd` and
-    (H2) the output value row of every OP_SQRT clause is replicated in both scratches.  The real code
-    establishes neither; without them the walk reads `d` columns / value columns written by
-    EARLIER queries (findings C15:feature-binary-setCount, C15:feature-sqrt-stale-ov). -/
-theorem feature_walk_frame (O : DOps α) (F : FeatOracle α) (dedup : List (Feat α) → List (Feat α))
-    (cv : Bool) (N simd : Nat) (sD₁ sD₂ : Nat → Nat → V3 α) (sV₁ sV₂ : Nat → Nat → α) (v : Nat → α)
-    (t : List Clause) (st : FeatState α)
-    (H1 : FeatCountsOK O F dedup cv N simd sD₁ sV₁ v t st)
-    (H2 : ∀ c ∈ t, c.op = Op.sqrt → ∀ lane, sV₁ c.id lane = v c.id ∧ sV₂ c.id lane = v c.id) :
-    featList O F dedup cv N simd sD₁ sV₁ v t st = featList O F dedup cv N simd sD₂ sV₂ v t st := by
-  induction t with
-  | nil => rfl
-  | cons c rest ih =>
-    obtain ⟨H1r, H1c⟩ := H1
-    have IH := ih H1r (fun d hd => H2 d (List.mem_cons_of_mem _ hd))
-    simp only [featList]
-    rw [← IH]
-    have := featClauseRaw_congr O F cv N simd
-      ⟨(featList O F dedup cv N simd sD₁ sV₁ v rest st).countSimd, sD₁, sV₁⟩
-      ⟨(featList O F dedup cv N simd sD₁ sV₁ v rest st).countSimd, sD₂, sV₂⟩ c v
-      (featList O F dedup cv N simd sD₁ sV₁ v rest st).f (featList O F dedup cv N simd sD₁ sV₁ v rest st).f
-      rfl rfl rfl H1c (H2 c (List.mem_cons_self ..))
-    rw [this]
+/-- column 0 of the value pass of a one-point query does not depend on the scratch -/
+theorem value0_frame (C : ECfg α β) (base : List Clause) (T : TapeM) (hT : TapeOK C base T)
+    (p : Pt α) (s₁ s₂ : EState α β) (hc : Core C base s₁ s₂) :
+    ∀ k, ¬ Banned base T k →
+      valuePass C T.t (setPts C s₁ [p]) (simdRound C.simd 1) k 0 =
+      valuePass C T.t (setPts C s₂ [p]) (simdRound C.simd 1) k 0 := by
+  intro k hk
+  have hcs : 0 < simdRound C.simd 1 := Nat.lt_of_lt_of_le Nat.zero_lt_one (le_simdRound _ _)
+  simp only [valuePass, hcs, if_true]
+  exact eval_frame C.ev C.orc C base T hT _ _
+    (fun j hj => setPts_leaf C base s₁ s₂ hc [p] 0 j hj (Or.inl (by simp))) k hk
+
+/-- `valueAndPush` returns the same specialised tape from core-agreeing states -/
+theorem pushedTape_frame (C : ECfg α β) (base : List Clause) (T : TapeM) (hT : TapeOK C base T)
+    (p : Pt α) (s₁ s₂ : EState α β) (hc : Core C base s₁ s₂) :
+    pushedTape C T p s₁ = pushedTape C T p s₂ := by
+  unfold pushedTape
+  apply push_congr
+  intro c hcm
+  obtain ⟨b1, b2⟩ := not_banned_operands hT c hcm
+  simp only [pointKeep, value0_frame C base T hT p s₁ s₂ hc _ b1, value0_frame C base T hT p s₁ s₂ hc _ b2]
+
+/-- **features frame.** `features_(p, tape)`: same specialised tape, same raw feature list at the
+    root, core preserved — with NO hypothesis on scratch (the hypotheses H1 / H2 of the pre-fix
+    `feature_walk_frame` are established by the fixed code: aa9f57c, 3ea66fb).  `hT'` says that the
+    specialised tape is again a tape of the deck (checked by the driver on every real tape). -/
+theorem features_frame (C : ECfg α β) (base : List Clause) (T : TapeM) (hT : TapeOK C base T)
+    (p : Pt α) (s₁ s₂ : EState α β) (hc : Core C base s₁ s₂)
+    (hT' : TapeOK C base (pushedTape C T p s₁)) :
+    (qFeatures C T p s₁).2 = (qFeatures C T p s₂).2 ∧
+    Core C base (qFeatures C T p s₁).1 (qFeatures C T p s₂).1 := by
+  have hpush := pushedTape_frame C base T hT p s₁ s₂ hc
+  have hv0 := value0_frame C base T hT p s₁ s₂ hc
+  have hidsT : ∀ k, k ∈ ids (pushedTape C T p s₁).t → k ∈ ids T.t := push_ids T _
+  have hnbT : ∀ k, k ∈ ids (pushedTape C T p s₁).t ∨ k ∉ ids base → ¬ Banned base T k := by
+    intro k hk ⟨h1, h2⟩
+    rcases hk with h | h
+    · exact h2 (hidsT k h)
+    · exact h h1
+  have hcong := FeatureProofs.featList_congr C.O C.F C.dedup s₁.clearVars C.N C.simd
+    (pushedTape C T p s₁).t (Banned base (pushedTape C T p s₁)) hT'.wf hT'.noOracle
+    (not_banned_operands hT')
+    (fun k => valuePass C T.t (setPts C s₁ [p]) (simdRound C.simd 1) k 0)
+    (fun k => valuePass C T.t (setPts C s₂ [p]) (simdRound C.simd 1) k 0)
+    ⟨s₁.f, simdRound C.simd 1⟩ ⟨s₂.f, simdRound C.simd 1⟩
+    (by
+      intro c hcm
+      obtain ⟨c1, c2⟩ := hT'.closed c hcm
+      exact ⟨hv0 _ (hnbT _ c1), hv0 _ (hnbT _ c2), hv0 _ (hnbT _ (Or.inl (mem_ids hcm)))⟩)
+    (by
+      intro k hk hB
+      exact hc.f k (fun h => hB ⟨h, hk⟩))
+    rfl
+  constructor
+  · simp only [qFeatures, ← hpush, ← hc.c]
+    exact hcong.1 _ (not_banned_root hT')
+  · refine ⟨?_, hc.d, ?_, hc.i, hc.c⟩
+    · intro k hk hx hy hz col
+      have hkT : k ∉ ids T.t := fun h => hk (hT.sub k h)
+      simp only [qFeatures, valuePass]
+      have := setPts_leaf C base s₁ s₂ hc [p] col k hk (Or.inr ⟨hx, hy, hz⟩)
+      split
+      · rw [evalList_notin _ _ _ _ _ hkT, evalList_notin _ _ _ _ _ hkT]; exact this
+      · exact this
+    · intro k hk
+      have hk' : k ∉ ids (pushedTape C T p s₁).t := fun h => hk (hT'.sub k h)
+      simp only [qFeatures, ← hpush]
+      rw [featList_notin _ _ _ _ _ _ _ _ _ _ hk', featList_notin _ _ _ _ _ _ _ _ _ _ hk']
+      exact hc.f k hk
+
+/-- **isInside frame.** -/
+theorem isInside_frame (C : ECfg α β) (base : List Clause) (T : TapeM) (hT : TapeOK C base T)
+    (p : Pt α) (s₁ s₂ : EState α β) (hc : Core C base s₁ s₂)
+    (hT' : TapeOK C base (pushedTape C T p s₁)) :
+    (qIsInside C T p s₁).2 = (qIsInside C T p s₂).2 ∧
+    Core C base (qIsInside C T p s₁).1 (qIsInside C T p s₂).1 := by
+  obtain ⟨hans, hcore⟩ := features_frame C base T hT p s₁ s₂ hc hT'
+  have hval : (qFeatures C T p s₁).1.v T.root 0 = (qFeatures C T p s₂).1.v T.root 0 := by
+    simp only [qFeatures]
+    exact value0_frame C base T hT p s₁ s₂ hc _ (not_banned_root hT)
+  simp only [qIsInside, hval, hans]
+  cases insideBySign C.O.lt C.O.zero ((qFeatures C T p s₂).1.v T.root 0) with
+  | some b =>
+    refine ⟨rfl, hcore.v, hc.d, hc.f, hc.i, hc.c⟩
+  | none => exact ⟨rfl, hcore⟩
 
 /-! ### histories -/
 
@@ -307,6 +367,8 @@ inductive Query (α : Type)
   | interval (T : TapeM) (lo hi : Pt α)
   | gradient (T : TapeM) (p : Pt α)
   | setVar (slot : Nat) (x : α)
+  | features (T : TapeM) (p : Pt α)
+  | isInside (T : TapeM) (p : Pt α)
 
 inductive Answer (α β : Type)
   | vals (l : List α)
@@ -314,6 +376,8 @@ inductive Answer (α β : Type)
   | ivl (i : β)
   | grad (l : List α)
   | changed (b : Bool)
+  | feats (l : List (Feat α))
+  | inside (b : Bool)
 
 def step (C : ECfg α β) : Query α → EState α β → EState α β × Answer α β
   | .values T pts, s => let r := qValues C T pts s; (r.1, .vals r.2)
@@ -321,11 +385,15 @@ def step (C : ECfg α β) : Query α → EState α β → EState α β × Answer
   | .interval T lo hi, s => let r := qInterval C T lo hi s; (r.1, .ivl r.2)
   | .gradient T p, s => let r := qGradient C T p s; (r.1, .grad r.2)
   | .setVar slot x, s => let r := qSetVar C slot x s; (r.1, .changed r.2)
+  | .features T p, s => let r := qFeatures C T p s; (r.1, .feats r.2)
+  | .isInside T p, s => let r := qIsInside C T p s; (r.1, .inside r.2)
 
-/-- a query this deck admits: its tape is a tape of the deck / its slot is a variable slot -/
-def QueryOK (C : ECfg α β) (base : List Clause) : Query α → Prop
-  | .values T _ | .derivs T _ | .interval T _ _ | .gradient T _ => TapeOK C base T
-  | .setVar slot _ => slot ∉ ids base ∧ slot ≠ C.X ∧ slot ≠ C.Y ∧ slot ≠ C.Z
+/-- a query this deck admits in state `s`: its tape is a tape of the deck (and so is the
+    specialised tape a feature query walks) / its slot is a variable slot -/
+def QueryOK (C : ECfg α β) (base : List Clause) : Query α → EState α β → Prop
+  | .values T _, _ | .derivs T _, _ | .interval T _ _, _ | .gradient T _, _ => TapeOK C base T
+  | .setVar slot _, _ => slot ∉ ids base ∧ slot ≠ C.X ∧ slot ≠ C.Y ∧ slot ≠ C.Z
+  | .features T p, s | .isInside T p, s => TapeOK C base T ∧ TapeOK C base (pushedTape C T p s)
 
 /-- run a history, collecting the answers -/
 def runAll (C : ECfg α β) : List (Query α) → EState α β → EState α β × List (Answer α β)
@@ -335,8 +403,13 @@ def runAll (C : ECfg α β) : List (Query α) → EState α β → EState α β 
     let r' := runAll C rest r.1
     (r'.1, r.2 :: r'.2)
 
-theorem step_frame (C : ECfg α β) (base : List Clause) (q : Query α) (hq : QueryOK C base q)
-    (s₁ s₂ : EState α β) (hc : Core C base s₁ s₂) :
+/-- every query of the history is admissible in the state it is asked in -/
+def HistOK (C : ECfg α β) (base : List Clause) : List (Query α) → EState α β → Prop
+  | [], _ => True
+  | q :: rest, s => QueryOK C base q s ∧ HistOK C base rest (step C q s).1
+
+theorem step_frame (C : ECfg α β) (base : List Clause) (q : Query α) (s₁ s₂ : EState α β)
+    (hq : QueryOK C base q s₁) (hc : Core C base s₁ s₂) :
     (step C q s₁).2 = (step C q s₂).2 ∧ Core C base (step C q s₁).1 (step C q s₂).1 := by
   cases q with
   | values T pts => obtain ⟨h1, h2⟩ := values_frame C base T hq pts s₁ s₂ hc; exact ⟨by simp [step, h1], h2⟩
@@ -346,27 +419,30 @@ theorem step_frame (C : ECfg α β) (base : List Clause) (q : Query α) (hq : Qu
   | setVar slot x =>
     obtain ⟨_, h1, h2, _⟩ := updateVars_effect C base slot x hq s₁ s₂ hc
     exact ⟨by simp [step, h1], h2⟩
+  | features T p => obtain ⟨h1, h2⟩ := features_frame C base T hq.1 p s₁ s₂ hc hq.2; exact ⟨by simp [step, h1], h2⟩
+  | isInside T p => obtain ⟨h1, h2⟩ := isInside_frame C base T hq.1 p s₁ s₂ hc hq.2; exact ⟨by simp [step, h1], h2⟩
 
 /-- **history_independent.** For all states `s₁ s₂` that agree on the core (constants, variable
-    values, leaf seeds, `clear_vars`) — everything else arbitrary — and every finite history of
-    value / batch / derivative / interval / Jacobian queries on any tapes of the deck and variable
-    updates: the two evaluators give the same answer to every query of the history (and still agree
-    afterwards).  With `s₁` the state a long-lived evaluator is in and `s₂` a freshly constructed
-    one this is the property; feature queries are covered by `feature_walk_frame` under H1, H2. -/
+    values, leaf seeds, leaf features, `clear_vars`) — everything else arbitrary — and every finite
+    history of value / batch / derivative / feature / inside / interval / Jacobian queries on any
+    tapes of the deck and variable updates: the two evaluators give the same answer to every query
+    of the history (and still agree afterwards).  With `s₁` the state a long-lived evaluator is in
+    and `s₂` a freshly constructed one this is the property. -/
 theorem history_independent (C : ECfg α β) (base : List Clause) (h : List (Query α))
-    (hq : ∀ q ∈ h, QueryOK C base q) (s₁ s₂ : EState α β) (hc : Core C base s₁ s₂) :
+    (s₁ s₂ : EState α β) (hq : HistOK C base h s₁) (hc : Core C base s₁ s₂) :
     (runAll C h s₁).2 = (runAll C h s₂).2 ∧ Core C base (runAll C h s₁).1 (runAll C h s₂).1 := by
   induction h generalizing s₁ s₂ with
   | nil => exact ⟨rfl, hc⟩
   | cons q rest ih =>
-    obtain ⟨h1, h2⟩ := step_frame C base q (hq q (List.mem_cons_self ..)) s₁ s₂ hc
-    obtain ⟨h3, h4⟩ := ih (fun q' hq' => hq q' (List.mem_cons_of_mem _ hq')) _ _ h2
+    obtain ⟨hq1, hq2⟩ := hq
+    obtain ⟨h1, h2⟩ := step_frame C base q s₁ s₂ hq1 hc
+    obtain ⟨h3, h4⟩ := ih _ _ hq2 h2
     exact ⟨by simp only [runAll, h1, h3], h4⟩
 
 /-- a long-lived evaluator stays in core-agreement with the state it started from as long as no
     variable is updated: queries only write non-core locations -/
-theorem core_preserved (C : ECfg α β) (base : List Clause) (q : Query α) (hq : QueryOK C base q)
-    (hns : ∀ slot x, q ≠ Query.setVar slot x) (s : EState α β) (hcv : s.clearVars = false)
+theorem core_preserved (C : ECfg α β) (base : List Clause) (q : Query α) (s : EState α β)
+    (hq : QueryOK C base q s) (hns : ∀ slot x, q ≠ Query.setVar slot x) (hcv : s.clearVars = false)
     (hseed : ∀ k, k ∉ ids base → ∀ row col, s.d k row col = spatialSeed C.O C.X C.Y C.Z row k) :
     Core C base (step C q s).1 s := by
   have hrefl : Core C base s s := ⟨fun _ _ _ _ _ _ => rfl, fun _ _ _ _ => rfl, fun _ _ => rfl, fun _ _ _ _ _ => rfl, rfl⟩
@@ -424,6 +500,42 @@ theorem core_preserved (C : ECfg α β) (base : List Clause) (q : Query α) (hq 
       exact (hseed k hk row col).symm
     · simp only [step, qGradient]; exact hcv.symm
   | setVar slot x => exact absurd rfl (hns slot x)
+  | features T p =>
+    obtain ⟨hT, hT'⟩ : TapeOK C base T ∧ TapeOK C base (pushedTape C T p s) := hq
+    refine ⟨?_, fun _ _ _ _ => rfl, ?_, fun _ _ _ _ _ => rfl, rfl⟩
+    · intro k hk hx hy hz col
+      have hkT : k ∉ ids T.t := fun h => hk (hT.sub k h)
+      simp only [step, qFeatures, valuePass]
+      have e : setPts C s [p] k col = s.v k col := by
+        unfold setPts; cases [p][col]? <;> simp [hx, hy, hz]
+      split
+      · rw [evalList_notin _ _ _ _ _ hkT]; exact e
+      · exact e
+    · intro k hk
+      have hk' : k ∉ ids (pushedTape C T p s).t := fun h => hk (hT'.sub k h)
+      simp only [step, qFeatures]
+      exact featList_notin _ _ _ _ _ _ _ _ _ _ hk'
+  | isInside T p =>
+    obtain ⟨hT, hT'⟩ : TapeOK C base T ∧ TapeOK C base (pushedTape C T p s) := hq
+    have hv : ∀ k, k ∉ ids base → k ≠ C.X → k ≠ C.Y → k ≠ C.Z → ∀ col,
+        (qFeatures C T p s).1.v k col = s.v k col := by
+      intro k hk hx hy hz col
+      have hkT : k ∉ ids T.t := fun h => hk (hT.sub k h)
+      simp only [qFeatures, valuePass]
+      have e : setPts C s [p] k col = s.v k col := by
+        unfold setPts; cases [p][col]? <;> simp [hx, hy, hz]
+      split
+      · rw [evalList_notin _ _ _ _ _ hkT]; exact e
+      · exact e
+    simp only [step, qIsInside]
+    cases insideBySign C.O.lt C.O.zero ((qFeatures C T p s).1.v T.root 0) with
+    | some b => exact ⟨hv, fun _ _ _ _ => rfl, fun _ _ => rfl, fun _ _ _ _ _ => rfl, rfl⟩
+    | none =>
+      refine ⟨hv, fun _ _ _ _ => rfl, ?_, fun _ _ _ _ _ => rfl, rfl⟩
+      intro k hk
+      have hk' : k ∉ ids (pushedTape C T p s).t := fun h => hk (hT'.sub k h)
+      simp only [qFeatures]
+      exact featList_notin _ _ _ _ _ _ _ _ _ _ hk'
 
 /-! ### the hypotheses are satisfiable: `x + y`, slots x = 2, y = 3, z = 4, clause 1 -/
 
@@ -432,11 +544,12 @@ def exCfg : ECfg Int Int :=
   { X := 2, Y := 3, Z := 4, ev := fun _ a b => a + b, orc := fun _ => 0,
     O := { zero := 0, one := 1, two := 2, add := (· + ·), sub := (· - ·), mul := (· * ·), div := (· / ·),
            neg := fun a => -a, sqrt := id, sin := id, cos := id, exp := id, pow := fun a _ => a,
-           lt := fun a b => decide (a < b), isZero := fun a => decide (a = 0), isNaN := fun _ => false },
+           lt := fun a b => decide (a < b), isZero := fun a => decide (a = 0), isNaN := fun _ => false,
+           oddInt := fun a => a % 2 == 1 },
     iev := fun _ a b => a + b, iorc := fun _ => 0, mkI := fun a _ => a, simd := 16, N := 256, vars := #[],
     F := { push := fun es e => some (es ++ [e]), normZero := fun _ => false, veq := fun a b => a == b,
            sub := fun a _ => a, negv := id },
-    dedup := id, ne := fun a b => a != b, ine := fun a b => a != b }
+    dedup := id, normPos := fun _ => true, check := fun _ _ => true, ne := fun a b => a != b, ine := fun a b => a != b }
 
 example : TapeOK exCfg exBase.t exBase :=
   { wf := wfb_sound _ (by decide), noOracle := by simp [exBase], sub := fun _ h => h,
